@@ -865,7 +865,13 @@ class Engine(
             case ColumnInContainer(item=item, container=container):
                 sql_item = self.expect_column_scalar(self.convert_column_expression(item, columns_available))
                 match container:
-                    case ColumnRangeLiteral(value=range(start=start, stop=stop_exclusive, step=step)):
+                    case ColumnRangeLiteral(value=range_value):
+                        if not range_value:
+                            return sqlalchemy.sql.literal(False)
+                        if range_value.step < 0:
+                            # Same elements, in ascending order.
+                            range_value = range_value[::-1]
+                        start, stop_exclusive, step = range_value.start, range_value.stop, range_value.step
                         # The convert_column_literal calls below should just
                         # call sqlalchemy.sql.literal(int), which would also
                         # happen automatically internal to any of the other
@@ -882,7 +888,19 @@ class Engine(
                                 self.convert_column_literal(start),
                                 self.convert_column_literal(stop_inclusive),
                             )
-                            if step != 1:
+                            if step != 1 and start < 0:
+                                # SQL's % takes the sign of the dividend, so
+                                # shift negative members to a non-negative
+                                # dividend before testing the remainder.
+                                return sqlalchemy.sql.and_(
+                                    *[
+                                        target,
+                                        (sql_item - self.convert_column_literal(start))
+                                        % self.convert_column_literal(step)
+                                        == self.convert_column_literal(0),
+                                    ]
+                                )
+                            elif step != 1:
                                 return sqlalchemy.sql.and_(
                                     *[
                                         target,
